@@ -405,6 +405,27 @@ Varable failures: {var_failed}
         self._add2Varlist([key])
         return outvar
 
+    def renameVariables(self, inplace=False, copyall=True, **newkeys):
+        """
+        Wrapper on PseudoNetCDFFile.renameVariables that renames the entries
+        of VAR-LIST in place and updates NVARS, VAR, and TFLAG
+
+        See also
+        --------
+        see PseudoNetCDFFile.renameVariables
+        """
+        outf = PseudoNetCDFFile.renameVariables(
+            self, inplace=inplace, copyall=copyall, **newkeys
+        )
+        varlist = []
+        for key in getattr(outf, 'VAR-LIST', '').split():
+            key = newkeys.get(key, key)
+            if key in outf.variables and key not in varlist:
+                varlist.append(key)
+        setattr(outf, 'VAR-LIST', ''.join([k.ljust(16) for k in varlist]))
+        outf.updatemeta()
+        return outf
+
     def mask(self, *args, **kwds):
         """
         Wrapper on PseudoNetCDFFile.subsetVariables that updates VAR-LIST,
